@@ -976,6 +976,13 @@ def mk_ite(c, a, b):
         return c
     if a == C(False) and b == C(True) and is_boolean(c):
         return mk_not(c)
+    # the same function called on either side: one call with conditional arguments  (f(x) if c else f(y)  ==  f(x if c else y))
+    if a[0] == 'call' and b[0] == 'call' and a[1] == b[1] and len(a[2]) == len(b[2]) and len(a[3]) == len(b[3]) \
+            and all(x[:2] == y[:2] for x, y in zip(a[3], b[3])) and not any(x[0] == 'star' for x in a[2] + b[2]) \
+            and sum(1 for x, y in zip(a[2], b[2]) if x != y) + sum(1 for x, y in zip(a[3], b[3]) if x != y) == 1:
+        args = tuple(x if x == y else mk_ite(c, x, y) for x, y in zip(a[2], b[2]))
+        kw = tuple(x if x == y else (x[0], x[1], mk_ite(c, x[2], y[2])) for x, y in zip(a[3], b[3]))
+        return ('call', a[1], args, kw)
     # nested conditionals sharing a branch are one conjunction (evaluation order kept)
     if a[0] == 'ite' and a[3] == b:
         return mk_ite(mk_bool('and', [c, a[1]]), a[2], b)
@@ -1746,7 +1753,7 @@ class PE:
     def ev_Call(self, n, env):
         # mutator methods on places
         if isinstance(n.func, ast.Attribute) and n.func.attr in MUTATORS and self.is_place(n.func.value) \
-                and not (isinstance(n.func.value, ast.Name) and n.func.value.id not in env
+                and not (isinstance(n.func.value, ast.Name) and n.func.value.id not in self.aliases
                          and self.ev(n.func.value, env)[0] in ('g', 'b')):      # operator.add(..) is not a set being mutated
             args = [self.ev(a, env) for a in n.args]
             if not n.keywords and not any(a[0] == 'star' for a in args):
@@ -1819,6 +1826,69 @@ class PE:
             return args
         return substitute(args, {cur: ('recv',)}, self.opts)
 
+    def _used_once_after(self, name, stmt):
+        """the name bound by `stmt` is read at most once afterwards, and not inside a loop that starts after the binding:
+        a lazy iterator with a single consumer is the same thing as writing it at the point of use"""
+        f = self.cur_fdef
+        end = (getattr(stmt, 'end_lineno', None), getattr(stmt, 'end_col_offset', None))
+        if f is None or end[0] is None:
+            return False
+        uses = []
+        stores_after = 0
+
+        def visit(n, loops):
+            nonlocal stores_after
+            for c in ast.iter_child_nodes(n):
+                if isinstance(c, (ast.FunctionDef, ast.Lambda, ast.ClassDef)):
+                    if any(isinstance(x, ast.Name) and x.id == name for x in ast.walk(c)):
+                        uses.append((c, ['closure']))
+                    continue
+                if isinstance(c, ast.Name) and c.id == name:
+                    pos = (getattr(c, 'lineno', None), getattr(c, 'col_offset', None))
+                    if pos[0] is None:
+                        uses.append((c, ['?']))
+                    elif pos >= end:
+                        if isinstance(c.ctx, ast.Load):
+                            uses.append((c, list(loops)))
+                        else:
+                            stores_after += 1
+                inner = loops
+                if isinstance(c, (ast.For, ast.While, ast.ListComp, ast.SetComp, ast.DictComp, ast.GeneratorExp)):
+                    start = (getattr(c, 'lineno', 0), getattr(c, 'col_offset', 0))
+                    # the iterable of a for loop / first generator is evaluated once, the rest on every iteration
+                    inner = loops + [c] if start >= end else loops
+                visit(c, inner)
+        visit(f, [])
+        if len(uses) > 1:
+            return False
+        CONSUMERS = {'list', 'tuple', 'sorted', 'sum', 'max', 'min', 'any', 'all', 'set', 'frozenset', 'bytes', 'bytearray', 'dict',
+                     'enumerate', 'zip', 'map', 'filter', 'reversed', 'reduce', 'join', 'extend', 'next'}
+        for u, loops in uses:
+            # the single use must consume the iterator on the spot: the iterable of a loop, or an argument of a consuming builtin
+            ok_ = False
+            for p_ in ast.walk(f):
+                if isinstance(p_, (ast.For, ast.comprehension)) and p_.iter is u:
+                    ok_ = True
+                elif isinstance(p_, ast.Call) and any(a_ is u for a_ in p_.args):
+                    nm_ = p_.func.id if isinstance(p_.func, ast.Name) else (p_.func.attr if isinstance(p_.func, ast.Attribute) else None)
+                    ok_ = ok_ or (nm_ in CONSUMERS and nm_ != 'next')
+                elif isinstance(p_, ast.Assign) and p_.value is u and isinstance(p_.targets[0], (ast.Tuple, ast.List)):
+                    ok_ = True            # a, b = it
+                elif isinstance(p_, ast.YieldFrom) and p_.value is u:
+                    ok_ = True
+            if not ok_:
+                return False
+        for u, loops in uses:
+            for lp in loops:
+                if lp in ('closure', '?'):
+                    return False
+                first_iter = lp.iter if isinstance(lp, ast.For) else (lp.generators[0].iter if hasattr(lp, 'generators') else None)
+                if first_iter is not None and any(x is u for x in ast.walk(first_iter)):
+                    continue          # `for x in name:` - evaluated once
+                return False
+        # the enclosing loops of the binding itself: a binding inside a loop is made afresh on every iteration
+        return True
+
     @staticmethod
     def _is_iterator(t):
         while t[0] == 'mut' and t[1] in ('next', 'consumed'):
@@ -1827,7 +1897,7 @@ class PE:
 
     def _is_module_name(self, n, env):
         """struct.pack / operator.xor / self.__class__: the `receiver` is a module or class, not an object with state"""
-        if isinstance(n, ast.Name) and n.id not in env:
+        if isinstance(n, ast.Name) and n.id not in self.aliases:
             return self.ev(n, env)[0] in ('g', 'b')
         return False
 
@@ -2273,7 +2343,11 @@ class PE:
         self.cur_effects = effects
         if isinstance(s, ast.Assign):
             v = self.ev(s.value, env)
-            if isinstance(s.value, ast.GeneratorExp) and v[0] != 'genexp' and any(isinstance(t_, ast.Name) for t_ in s.targets):
+            lazy_ = isinstance(s.value, ast.GeneratorExp) or (
+                isinstance(s.value, ast.Call) and isinstance(s.value.func, ast.Name) and s.value.func.id not in env
+                and s.value.func.id in ('map', 'filter', 'zip', 'enumerate', 'reversed', 'iter'))
+            if lazy_ and v[0] != 'genexp' and any(isinstance(t_, ast.Name) for t_ in s.targets) \
+                    and not all(self._used_once_after(t_.id, s) for t_ in s.targets if isinstance(t_, ast.Name)):
                 v = ('genexp', v)        # a NAMED generator can be consumed only once: not the same thing as the list
             for t in s.targets:
                 self.cur_effects = effects
